@@ -17,9 +17,12 @@ decimal digits and Unicode whitespace there, which is not modelled).  On ASCII t
             `[+-]? ( inf | infinity | nan )`  (case-insensitive);  no hex, no `nan(...)`, no inner blanks.
 * `value.lstrip().rstrip()` strips `' ' \t \n \x0b \x0c \r \x1c \x1d \x1e \x1f`.
 Not modelled: `sys.int_info.default_max_str_digits` (4300) — the driver rejects strings > 4000 characters.
-`abs(vi - vf) < 1e-9` in `dumbtypecheck`: `float(str)` and `float(int)` are both correctly rounded, so the
-difference is exactly `0.0` and the branch is always taken, EXCEPT when the integer rounds to ≥ 2^1024
-(`|vi| ≥ 2^1024 − 2^970`): then `vi - vf` raises `OverflowError` out of `dumbtypecheck`; modelled (`Class.overflow`).
+`abs(vi - vf) < 1e-9` in `dumbtypecheck`: Python evaluates `vi - vf` as `float(vi) - vf`; `float(str)` and
+`float(int)` are both correctly rounded (half-even) images of the same integer, so the difference is exactly `0.0`
+(also for |vi| > 2^53, e.g. `'9007199254740993'` stays the int 2^53+1) and the int branch is taken.  When the
+integer rounds to ≥ 2^1024 (`|vi| ≥ 2^1024 − 2^970`, `vf = ±inf`) `float(vi)` raises `OverflowError`, which the code
+catches and treats as "is an int".  Hence: whenever `int(value)` succeeds the result is that int; the float branch
+after a successful `int()` is dead code and is not modelled (the correspondence run would expose it).
 -/
 
 namespace Params
@@ -143,14 +146,10 @@ def pyFloat (s : Str) : Option Str := floatCore (strip isFloatSpace s)
 /-- Python `int(s)` (base 10) succeeds with value `n` ↔ `some n` -/
 def pyInt (s : Str) : Option Int := intCore (strip isFloatSpace s)
 
-/-- smallest |n| for which `float(n)` raises `OverflowError` (round-half-even reaches 2^1024) -/
-def ovfBound : Nat := 2 ^ 1024 - 2 ^ 970
-
 inductive Class where
   | int (n : Int)
   | flt (tok : Str)
   | text (s : Str)
-  | overflow
 deriving DecidableEq, Repr
 
 /-- the body of `dumbtypecheck` for one string value -/
@@ -160,26 +159,20 @@ def classify (s : Str) : Class :=
   | some tok =>
     match pyInt s with
     | none => .flt tok                           -- "it really is a float"
-    | some n => if n.natAbs < ovfBound then .int n else .overflow   -- abs(vi - vf) < 1e-9  /  OverflowError
+    | some n => .int n                           -- abs(vi - vf) < 1e-9, or OverflowError caught: "use int"
 
-/-- `none` = `OverflowError` raised -/
-def coerceVal : Val → Option Val
+/-- `dumbtypecheck` on one value: strings are classified, ints and floats keep their type -/
+def coerceVal : Val → Val
   | .str s =>
     match classify s with
-    | .int n => some (.int n)
-    | .flt t => some (.flt t)
-    | .text t => some (.str t)
-    | .overflow => none
-  | v => some v
+    | .int n => .int n
+    | .flt t => .flt t
+    | .text t => .str t
+  | v => v
 
-/-- `dumbtypecheck` over `list(self.parameters.items())` in order; the flag says that `OverflowError` escaped, in
-    which case the entries before the offending one are already coerced and the rest is untouched -/
-def dumbList : List (Str × Val) → List (Str × Val) × Bool
-  | [] => ([], false)
-  | (k, v) :: t =>
-    match coerceVal v with
-    | none => ((k, v) :: t, true)
-    | some v' => ((k, v') :: (dumbList t).1, (dumbList t).2)
+/-- `dumbtypecheck` over `list(self.parameters.items())`: every value is re-assigned under its own name, so keys and
+    order stay -/
+def dumbList (l : List (Str × Val)) : List (Str × Val) := l.map fun kv => (kv.1, coerceVal kv.2)
 
 /-! ## the object -/
 
@@ -194,7 +187,7 @@ deriving Repr
 def init : State := {}
 
 inductive Err where
-  | assertion | key | overflow
+  | assertion | key
 deriving DecidableEq, Repr
 
 inductive Op where
@@ -326,9 +319,7 @@ def loadLines (ps : List (Str × Val)) (text : Str) : List (Str × Val) :=
 def step (st : State) : Op → State × Option Err
   | .addpar name value vary canVary stepsize => (addpar st name value vary canVary stepsize, none)
   | .set name value => ({ st with params := setKV name value st.params }, none)
-  | .setParameters d =>
-    let r := dumbList (setMany st.params d)
-    ({ st with params := r.1 }, if r.2 then some .overflow else none)
+  | .setParameters d => ({ st with params := dumbList (setMany st.params d) }, none)
   | .setVarylist vl =>
     if varylistOk st vl then ({ st with varylist := vl }, none) else (st, some .assertion)
   | .setVariableValues vs =>
@@ -337,11 +328,9 @@ def step (st : State) : Op → State × Option Err
     else (st, some .assertion)
   | .updateOther _ => (st, none)
   | .updateYourself obj => ({ st with params := updateYourself st.params obj }, none)
-  | .load text =>
-    let r := dumbList (loadLines st.params text)
-    ({ st with params := r.1 }, if r.2 then some .overflow else none)
+  | .load text => ({ st with params := dumbList (loadLines st.params text) }, none)
 
-/-- run a history; the object keeps whatever state an exception left behind, as in Python -/
+/-- run a history (a rejected call = `AssertionError` leaves the object unchanged) -/
 def run (st : State) : List Op → State × List (Option Err)
   | [] => (st, [])
   | o :: os => ((run (step st o).1 os).1, (step st o).2 :: (run (step st o).1 os).2)
